@@ -19,6 +19,8 @@
 // Operations added by the review: irf / mif / asf / ctf (range members with forward-iterator sources), cta (construction
 // from T[n]), kcc / kmc (stack from a container), fei (erase_if on a flat_set); o-family: vsv vsu vsr vau vaw vnd vne vnc
 // vnl vnm vrc vrm fac; a-family: ace ame acp amp aqa aqm; pcopy / pown (below).
+//   bhist / bmon <family> <cap> ...      (missed-seed round 4) bulk histories that walk the element count over the limits of
+//                                        size_type = smallest_size_t<Capacity> (capacities 254 .. 70000, element types TrkCM, TrkC, int): below.
 #include "common.hpp"
 
 #include <algorithm>
